@@ -40,6 +40,10 @@ PRIMS = {
 }
 
 
+def short_name(b):
+    return getattr(b, 'root_short', None) or getattr(b, 'short', str(b))
+
+
 def _state_of(roots):
     vs = [r[2] for r in roots if r[0] == "agg" and r[1] == "FrameState"]
     cs = [r[1].split("::")[-1] for r in roots if r[0] == "const" and isinstance(r[1], str) and r[1].startswith("FrameState::")]
@@ -729,6 +733,27 @@ def _tests_sent(b):
     return True
 
 
+def _state_test(b):
+    """If body `b` returns a comparison of load(status) with FrameState constants: (op, [states]); else None."""
+    pr = Prov(b)
+    ret = set()
+    op = None
+    for (bi, si, kind, payload) in b.defs().get(0, []):
+        if kind == "assign":
+            ret |= pr._of_rvalue(payload["rv"])
+        elif kind == "call":
+            c = payload
+            if c.is_("PartialEq::eq", "PartialEq::ne"):
+                for a in c.args:
+                    ret |= pr.of_operand(a)
+                op = "Eq" if c.is_("PartialEq::eq") else "Ne"
+    if not [r for r in ret if r[0] == "call" and r[1] == "AtomicFrameState::load"]:
+        return None
+    if op is None:
+        op = "Eq" if has_root(ret, "binop", "Eq") else ("Ne" if has_root(ret, "binop", "Ne") else "?")
+    return op, _state_of(ret)
+
+
 def s8(prog, rep, P, sites, tag=""):
     """Stale index markers: the receive-side lookup must not prefer a slot that is not awaiting a
     response.  Either the lookup tests the slot state, or every path that frees a slot clears its
@@ -750,6 +775,22 @@ def s8(prog, rep, P, sites, tag=""):
                     aware = True
         state_aware = state_aware and aware
     rep.ob(P + ".S8", "lookup:marker-test" + tag, marker, "the lookup returns a slot only where first_pdu_is(slot, index) holds", loc=lk.span)
+    if not state_aware:
+        # a state test that is wider than `== Sent` protects freed slots only
+        wide = []
+        for bi, si, s in somes:
+            for c in q.implied_true_calls(lk, bi):
+                t = prog.by_path.get(c.full)
+                st = _state_test(t) if t is not None else None
+                if st is not None and not _tests_sent(t):
+                    wide.append((short_name(t), st))
+        if wide:
+            rep.violation(
+                P + ".S8", "lookup:state-test-too-wide" + tag,
+                "the lookup tests the slot state with %s, which also matches slots that are not awaiting a response: a slot another request still holds (RxDone / RxProcessing) or has not sent yet keeps its first-datagram marker, and once the 8-bit index has wrapped it is found before the live request's slot, whose genuine response is then rejected" % ", ".join("%s: state %s %s" % (n, "==" if o == "Eq" else "!=", "/".join(v)) for n, (o, v) in wide),
+                loc=lk.span,
+            )
+            return
     if state_aware:
         rep.ob(P + ".S8", "lookup:state-aware" + tag, True, "the lookup returns a slot only if, in addition, that same slot's state is Sent: stale markers of freed / timed-out / reset slots cannot shadow a live request", loc=lk.span)
         return
